@@ -133,24 +133,28 @@ PROPERTIES = {
         "min_nontrivial": 200,
         "assumptions": ["sign constraints are those announced by the reader's messages (the docs state none); damping = 0 is not judged "
                         "because message ('strictly positive') and code (rejects only negatives) disagree",
-                        "the 'values govern the run' clause is decided by the solver-level engines that feed their parameters through XML (C19 sub xml)"],
+                        "the 'values govern the run' clause is decided by the solver-level engines that feed their parameters through XML: C19's engine (time step, duration, sampling period govern clock and file cadence) and C06's engine (edge length and the two cut-offs, adhesion above or below repulsion, govern which node-face pairs interact); densities, moduli and tensions reach the forces through the structures whose fields the read-back compares and C02/C03/C04 judge"],
         "jobs": [J("C18_params", quick={"cases": 600, "shards": 8, "max_size": 60}, thorough={"cases": 30000, "shards": 16, "max_size": 100},
                    env={"VERIF_TMP": "/verif/build/run"}),
                  # end-to-end clause: dt / duration / sampling period written in XML, parsed by the real reader, must govern a real run
                  J("C19_outputs", quick={"cases": 12, "shards": 8, "max_size": 40}, thorough={"cases": 200, "shards": 8, "max_size": 60},
+                   env={"VERIF_TMP": "/verif/build/run"}, prefix=True),
+                 # end-to-end clause: edge length and the two cut-offs written in XML, parsed by the real reader, must set the interaction range
+                 # of the contact phase (C06's engine routes its parameters through a parameter file in 3/5 of its cases)
+                 J("C06_broadphase", quick={"cases": 12, "shards": 4, "max_size": 60}, thorough={"cases": 300, "shards": 5, "max_size": 100},
                    env={"VERIF_TMP": "/verif/build/run"}, prefix=True)],
     },
     "C06": {
         "rule": "rapidcheck: tissues of 2-7 cells (chain, cluster, cells inside an ECM shell, nucleus inside a cell, apart) of mixed classes, persistent ids larger than the list positions in 2/3 of the tissues, "
                 "icosphere level 1-2, um / unit / x12 scale, placed up to 3000 sizes from the origin and (1/2 of the cases) a further 1e4-1e7 edge lengths away; l_min, repulsion and adhesion "
-                "cut-offs log-uniform in [0.05, 3] edge lengths; node normals either in the iteration-0 state or computed; in half of the tissues every cell first undergoes real edge collapses / splits that leave unused node and face slots; for contact "
+                "cut-offs independently log-uniform in [0.05, 3] edge lengths (in 3/5 of the cases written into a parameter file and read back through the real XML reader); node normals either in the iteration-0 state or computed; in half of the tissues every cell first undergoes real edge collapses / splits that leave unused node and face slots; for contact "
                 "models 0, 1, 2. Non-trivial = a node-face pair within the cut-off (independent kernel), tissue spanning >= 27 voxels, "
                 "and a contact force or a pair whose node and face lie in different voxels; distinct = hash of the case.",
         "min_nontrivial": 30,
         "assumptions": ["single thread (couplings are order dependent by design)",
                         "the all-pairs reference calls the real narrow-phase entry (resolve_contact / apply_contact_forces) of a second model "
                         "instance in descending global face id, the order in which the voxel lists yield faces"],
-        "jobs": [J("C06_broadphase", v, quick={"cases": 20, "shards": 5, "max_size": 60}, thorough={"cases": 600, "shards": 5, "max_size": 100})
+        "jobs": [J("C06_broadphase", v, quick={"cases": 20, "shards": 5, "max_size": 60}, thorough={"cases": 600, "shards": 5, "max_size": 100}, env={"VERIF_TMP": "/verif/build/run"})
                  for v in ("san", "san-cm0", "san-cm2")],
     },
     "C07": {
